@@ -177,8 +177,8 @@ GhostSMTSolver::pickBranchLit() {
 }
 
 void GhostSMTSolver::relocAll() {
-    for (const auto & appearances : thLitToClauses) {
-        for (CRef cr : appearances) {
+    for (auto & appearances : thLitToClauses) {
+        for (CRef & cr : appearances) {
             cr = ca[cr].relocation();
         }
     }
